@@ -28,6 +28,51 @@ pub struct Entry {
 #[derive(Debug, PartialEq, Eq, Clone, Copy)]
 struct Inj(u32);
 
+/// Consumes a batch-decoding iterator in one of three ways that the `Iterator` contract makes equivalent: `collect`; a
+/// `next()` loop that also holds `size_hint` against the number of items still to come; or `nth(j)` - which has to
+/// decode and drop j symbols - followed by `next()`. The dropped positions are filled in from `expect` (they cannot be
+/// observed; that they were really decoded shows in the coder's state, which the caller compares with the per-symbol loop).
+pub(crate) fn consume_batch<E: core::fmt::Debug>(style: usize, expect: &[usize], mut it: impl Iterator<Item = Result<usize, E>>) -> Result<Vec<usize>, String> {
+    let k = expect.len();
+    match style {
+        0 => it.collect::<Result<Vec<_>, _>>().map_err(|e| format!("{:?}", e)),
+        1 => {
+            let mut out = Vec::new();
+            loop {
+                let left = k - out.len().min(k);
+                let (lo, hi) = it.size_hint();
+                if lo > left || hi.map_or(false, |h| h < left) {
+                    return Err(format!("size_hint() = ({}, {:?}) with {} items still to come", lo, hi, left));
+                }
+                match it.next() {
+                    Some(Ok(s)) => out.push(s),
+                    Some(Err(e)) => return Err(format!("{:?}", e)),
+                    None => return Ok(out),
+                }
+                if out.len() > k + 1 {
+                    return Err("the iterator yields more items than models were supplied".into());
+                }
+            }
+        }
+        _ => {
+            let j = (k - 1) / 2;
+            let mut out: Vec<usize> = expect[..j].to_vec();
+            match it.nth(j) {
+                Some(Ok(s)) => out.push(s),
+                Some(Err(e)) => return Err(format!("{:?}", e)),
+                None => return Err(format!("nth({}) returned None with {} models supplied", j, k)),
+            }
+            for r in it {
+                match r {
+                    Ok(s) => out.push(s),
+                    Err(e) => return Err(format!("{:?}", e)),
+                }
+            }
+            Ok(out)
+        }
+    }
+}
+
 macro_rules! precs {
     ([$(($Pr:ty, $P:literal)),+]) => { [$($P as u32),+] };
 }
@@ -334,10 +379,7 @@ macro_rules! c01_row {
                         let len_before = coder.bulk().len();
                         let got: Result<Vec<usize>, String> = with_prec!(top_sel, $plist, |M| {
                             match form {
-                                0 => coder
-                                    .decode_symbols((0..k).map(|i| M::new(&pending[n - 1 - i].tab)))
-                                    .collect::<Result<Vec<_>, _>>()
-                                    .map_err(|e| format!("{:?}", e)),
+                                0 => consume_batch((k + n) % 3, &expect, coder.decode_symbols((0..k).map(|i| M::new(&pending[n - 1 - i].tab)))),
                                 1 => {
                                     // iterator of k (+1 injected) items
                                     let total = k + inject.is_some() as usize;
@@ -365,10 +407,7 @@ macro_rules! c01_row {
                                         None => Ok(out),
                                     }
                                 }
-                                _ => coder
-                                    .decode_iid_symbols(k, M::new(&pending[n - 1].tab))
-                                    .collect::<Result<Vec<_>, _>>()
-                                    .map_err(|e| format!("{:?}", e)),
+                                _ => consume_batch((k + n) % 3, &expect, coder.decode_iid_symbols(k, M::new(&pending[n - 1].tab))),
                             }
                         });
                         match got {
